@@ -1462,8 +1462,10 @@ class Interp:
         site = (fr.fn.qn, getattr(node, 'lineno', 0), getattr(node, 'col_offset', 0), how)
         self.stats['susp_sites'].add(site)
         summaries = [self.summary(c, which) for c in callees]
-        if how == 'await' and len(callees) == 1 and not base and not user and \
-                isinstance(node, ast.Await) and isinstance(node.value, ast.Call) and \
+        if how in ('await', 'yield from') and len(callees) == 1 and not base and \
+                not user and isinstance(node, (ast.Await, ast.YieldFrom)) and \
+                isinstance(node.value, ast.Call) and \
+                (how == 'await') == (callees[0].fn.kind == 'coroutine') and \
                 self._is_helper(node, callees[0], fr):
             results = []
             for out, s in self._inline_helper(node, node.value, how, callees[0], st, fr):
@@ -1583,10 +1585,19 @@ class Interp:
 
     def _is_helper(self, node, callee: Callee, fr: DynFrame) -> bool:
         """a private helper of the same object / module that is inlined transparently"""
-        if not self.helpers or fr.helper_depth >= self.HELPER_DEPTH:
+        if fr.helper_depth >= self.HELPER_DEPTH:
             return False
         fn = callee.fn
-        if fn.kind not in ('sync', 'coroutine') or fn.is_property or fn.is_classmethod:
+        if not self.helpers:
+            # summaries run helpers in place only where a generator delegates to a private
+            # generator of the same object (an ``__await__`` split into stages): whether the
+            # whole must suspend depends on what the stages establish for each other
+            if not (isinstance(node, ast.YieldFrom) and fn.kind == 'generator'
+                    and fn.cls is not None):
+                return False
+        kinds = ('sync', 'coroutine', 'generator') if isinstance(node, ast.YieldFrom) \
+            else ('sync', 'coroutine')
+        if fn.kind not in kinds or fn.is_property or fn.is_classmethod:
             return False
         name = fn.name
         if not name.startswith('_') or (name.startswith('__') and name.endswith('__')):
@@ -1595,7 +1606,7 @@ class Interp:
             return False
         if fn.is_static:
             # `self._helper(...)` / `Class._helper(...)` of the caller's own class
-            call = node.value if isinstance(node, ast.Await) else node
+            call = node.value if isinstance(node, (ast.Await, ast.YieldFrom)) else node
             owner = self.p.enclosing_self_class(fr.fn)
             if not (isinstance(call, ast.Call) and isinstance(call.func, ast.Attribute)
                     and isinstance(call.func.value, ast.Name) and owner is not None
@@ -1613,7 +1624,10 @@ class Interp:
             return False
         summ = self.summary(callee)
         # only small helpers: inlining multiplies paths
-        return not summ.cyclic and summ.n_paths <= self.HELPER_PATHS
+        limit = self.HELPER_PATHS
+        if isinstance(node, ast.YieldFrom) and fn.kind == 'generator':
+            limit = max(limit, 24)  # stages of one ``__await__``: few, but loops with exits
+        return not summ.cyclic and summ.n_paths <= limit
 
     def _bind_arguments(self, call: ast.Call, callee: Callee, enter_index: int) -> dict:
         params = callee.fn.node.args.posonlyargs + callee.fn.node.args.args
@@ -1698,7 +1712,7 @@ class Interp:
     def _same_self(self, node, fr: DynFrame, callee: Callee) -> bool:
         """the call is ``self.m(...)`` / ``super().m(...)`` with both selves named `self`"""
         call = node
-        if isinstance(node, ast.Await):
+        if isinstance(node, (ast.Await, ast.YieldFrom)):
             call = node.value
         if not (isinstance(call, ast.Call) and isinstance(call.func, ast.Attribute)):
             return False
@@ -1722,7 +1736,7 @@ class Interp:
     def _same_receiver(self, node, fr: DynFrame, callee: Callee) -> bool:
         """``cls._helper(...)`` inside a method whose first parameter is ``cls`` too
         (metaclass and class methods): the same object under the same name"""
-        call = node.value if isinstance(node, ast.Await) else node
+        call = node.value if isinstance(node, (ast.Await, ast.YieldFrom)) else node
         if not (isinstance(call, ast.Call) and isinstance(call.func, ast.Attribute)
                 and isinstance(call.func.value, ast.Name)):
             return False
